@@ -32,11 +32,12 @@ const (
 )
 
 type interp struct {
-	c    *core.Ctx
-	info *types.Info
-	env  map[types.Object]ival
-	ret  []constant.Value
-	fuel int
+	c     *core.Ctx
+	info  *types.Info
+	env   map[types.Object]ival
+	ret   []constant.Value
+	fuel  int
+	depth int
 }
 
 type interpErr struct{ msg string }
@@ -90,7 +91,11 @@ func MapLiteral(c *core.Ctx, pkgPath string, obj types.Object) (map[string]strin
 
 // evalTable runs fn(args...) and returns its constant results, or panicked=true.
 func evalTable(c *core.Ctx, fn *core.Fn, args []constant.Value, globals map[types.Object]ival) (res []constant.Value, panicked bool, err error) {
-	it := &interp{c: c, info: fn.Pkg.TypesInfo, env: map[types.Object]ival{}, fuel: 2000}
+	return evalTableDepth(c, fn, args, globals, 0)
+}
+
+func evalTableDepth(c *core.Ctx, fn *core.Fn, args []constant.Value, globals map[types.Object]ival, depth int) (res []constant.Value, panicked bool, err error) {
+	it := &interp{c: c, info: fn.Pkg.TypesInfo, env: map[types.Object]ival{}, fuel: 2000, depth: depth}
 	for k, v := range globals {
 		it.env[k] = v
 	}
@@ -108,6 +113,10 @@ func evalTable(c *core.Ctx, fn *core.Fn, args []constant.Value, globals map[type
 		if r := recover(); r != nil {
 			if ie, ok := r.(interpErr); ok {
 				err = fmt.Errorf("%s", ie.msg)
+				return
+			}
+			if _, ok := r.(interpPanic); ok {
+				panicked = true
 				return
 			}
 			panic(r)
@@ -361,6 +370,34 @@ func (it *interp) eval(e ast.Expr) ival {
 			return ival{c: constant.MakeBool(constant.Compare(a, x.Op, b))}
 		}
 	}
+	if call, ok := e.(*ast.CallExpr); ok && it.depth < 3 {
+		// a helper of the module with constant arguments: evaluate it the same way
+		if fn := it.c.FnOf(core.CalleeFunc(it.info, call)); fn != nil && fn.Decl.Body != nil && !call.Ellipsis.IsValid() {
+			args := make([]constant.Value, len(call.Args))
+			for i, a := range call.Args {
+				args[i] = it.scalar(a)
+			}
+			globals := map[types.Object]ival{}
+			for k, v := range it.env {
+				if vv, ok := k.(*types.Var); ok && vv.Parent() == vv.Pkg().Scope() {
+					globals[k] = v
+				}
+			}
+			res, pan, err := evalTableDepth(it.c, fn, args, globals, it.depth+1)
+			if err != nil {
+				it.fail(e, "helper %s: %v", fn.Name(), err)
+			}
+			if pan {
+				panic(interpPanic{})
+			}
+			if len(res) == 1 {
+				return ival{c: res[0]}
+			}
+			it.fail(e, "helper %s has %d results", fn.Name(), len(res))
+		}
+	}
 	it.fail(e, "unsupported expression")
 	return ival{}
 }
+
+type interpPanic struct{}
